@@ -100,7 +100,7 @@ class Compact:
                         # the source forwards the Finished PDU's parameters (opaque here) or fabricates a success report
                         marks.add("IND_FABRICATED" if "FinishedParams(" in repr(fp) else "IND_FORWARDED")
                 elif x.kind == "env" and x.name.startswith("fault."):
-                    marks.add("FAULT")
+                    marks.add("FAULT:" + ename(x.args[1]))
             dst = e.dst
             if e.exc is not None:
                 if e.exc.cls.startswith("PduIgnored") or e.exc.cls == "InvalidNakPdu" or e.exc.cls.startswith("InvalidPduFor"):
@@ -146,7 +146,11 @@ class PState(NamedTuple):
 
 
 class Product:
-    def __init__(self, src: ATS, dst: ATS, mode: str, closure: bool, shape: str, chan_cap: int = 3) -> None:
+    LIMITS = ("FAULT:POSITIVE_ACK_LIMIT_REACHED", "FAULT:NAK_LIMIT_REACHED", "FAULT:CHECK_LIMIT_REACHED", "FAULT:$OTHER")
+
+    def __init__(self, src: ATS, dst: ATS, mode: str, closure: bool, shape: str, chan_cap: int = 3, limits_exceed_faults: bool = True) -> None:
+        # premise of C03: every configured expiration limit exceeds the number of faults, so no limit fault fires
+        self.no_limit_faults = limits_exceed_faults
         self.src, self.dst = Compact(src, "source"), Compact(dst, "dest")
         self.mode, self.closure, self.shape = mode, closure, shape
         self.cap = chan_cap
@@ -205,6 +209,8 @@ class Product:
                 bits = set(st.bits)
                 if any(x.startswith("CRASH") for x in m.marks):
                     continue
+                if self.no_limit_faults and any(x in self.LIMITS for x in m.marks):
+                    continue
                 if head is not None and head[0] == "FINISHED" and not any(x.startswith("REFUSED") for x in m.marks):
                     bits.add("FIN_GOOD" if dict(head[1]).get("good") else "FIN_BAD")
                 if "IND_FORWARDED" in m.marks:
@@ -238,6 +244,8 @@ class Product:
                     continue
                 if m.dst is None or any(x.startswith("CRASH") for x in m.marks):
                     continue
+                if self.no_limit_faults and any(x in self.LIMITS for x in m.marks):
+                    continue
                 bits = set(st.bits)
                 if "IND_OK" in m.marks:
                     bits.add("DST_OK")
@@ -252,10 +260,11 @@ class Product:
                 res.append((f"dest {label[1] or 'tick'}", PState(st.s, m.dst, nsd, nds, frozenset(bits))))
         return res
 
-    def explore(self, starts: list[PState], max_states: int = 400000) -> tuple[dict[PState, list[PState]], set[PState]]:
-        graph: dict[PState, list[PState]] = {}
-        q = deque(starts)
-        seen = set(starts)
+    def explore(self, starts: list[PState], max_states: int = 400000, known: dict | None = None) -> tuple[dict[PState, list[PState]], set[PState]]:
+        """`known`: an already explored graph that is extended in place (its states are not expanded again)"""
+        graph: dict[PState, list[PState]] = known if known is not None else {}
+        q = deque(s for s in starts if s not in graph)
+        seen = set(graph) | set(starts)
         while q:
             st = q.popleft()
             if "SRC_BAD" in st.bits or "DST_BAD" in st.bits:
